@@ -71,6 +71,7 @@ def modules():
         logging.getLogger("websockets.server").setLevel(logging.CRITICAL)
         logging.getLogger("asyncio").setLevel(logging.CRITICAL)
         services_manager.asyncio = _AsyncioShim(_fast_sleep)
+        _STATE["sleep"] = _fast_sleep
         _STATE["ready"] = True
 
     class NS:
@@ -92,7 +93,25 @@ def modules():
 def set_sleep(fn):
     """install another coroutine function as the services manager's sleep (C12 uses a gate)"""
     ns = modules()
+    _STATE["sleep"] = fn
     ns.services_manager.asyncio = _AsyncioShim(fn)
+
+
+def hard_restart_server_state():
+    """what a server PROCESS restart does: every server-side module starts from its import-time state again (module-level caches,
+    registries, counters are gone), on the same directory"""
+    import importlib
+    ns = modules()
+    for m in (ns.server_fm, ns.server_service, ns.services_manager, ns.connector):
+        importlib.reload(m)
+    ns.services_manager.asyncio = _AsyncioShim(_STATE.get("sleep", _fast_sleep))
+    for name in ("sse_server",):
+        lg = logging.getLogger(name)
+        for h in list(lg.handlers):
+            if not isinstance(h, logging.NullHandler):
+                lg.removeHandler(h)
+                with contextlib.suppress(Exception):
+                    h.close()
 
 
 def wipe():
@@ -145,10 +164,14 @@ class Server:
             await self.server.wait_closed()
             self.server = None
 
-    async def restart(self):
-        """stop listening, forget all in-memory state, listen again (new port)"""
+    async def restart(self, hard=False):
+        """stop listening, forget all in-memory state, listen again (new port); hard=True also resets every server module to its
+        import-time state (what a new server process would have)"""
         await self.stop()
-        restart_server_state()
+        if hard:
+            hard_restart_server_state()
+        else:
+            restart_server_state()
         await self.start()
 
     @property
